@@ -1,6 +1,6 @@
 """One experiment process of a real-process scenario (DESIGN 2.3): run as a script.
 
-    realxp.py <workspace> <experiment name> <json spec>
+    realxp.py <workspace> <experiment name> <json spec>   (VX_CRASH=k:before-spawn|after-spawn|pid-file-empty)
 
 spec = {"total": int|None, "jobs": [{"idx", "ups", "dur", "w", "code"}...]}"""
 import json
@@ -34,6 +34,10 @@ if crash:
             os.kill(os.getpid(), signal.SIGKILL)
         p = real_start(self, *a, **kw)
         if count[0] == int(k) and where == "after-spawn":
+            os.kill(os.getpid(), signal.SIGKILL)
+        if count[0] == int(k) and where == "pid-file-empty":
+            # ... between the creation of the .pid file (open("w")) and the write of its content
+            Path(self.stdout.path).with_suffix(".pid").write_text("")
             os.kill(os.getpid(), signal.SIGKILL)
         return p
 
